@@ -1,4 +1,5 @@
 #!/bin/sh
+export VERIF_EVIDENCE_DIR=/tmp/verif_experiment_evidence; mkdir -p $VERIF_EVIDENCE_DIR/replays
 # usage: mut_try.sh <prop> <file> <python-expr old> <new>   -- apply a textual mutation to /repo, run the quick check, revert
 prop=$1; file=$2; old=$3; new=$4
 python3 - "$file" "$old" "$new" <<'PY'
